@@ -205,6 +205,11 @@ def ledger_episode(ctx, props, chain=False, discrete=False, prebuilt=None):
     acts, outs = [], []
     reuse_buffer = rng.random() < 0.25
     buf = None
+    import pandas as _pd
+    bk = rng.choice(["ndarray", "ndarray", "list", "series"])
+    buf_kind = {"ndarray": lambda x: x, "list": lambda x: list(x), "series": lambda x: _pd.Series(x)}[bk]
+    if reuse_buffer and not discrete:
+        ctx.cat("action-buffer-kind:" + bk)
     fork_at = rng.randint(1, 4) if rng.random() < 0.2 else None
     refuse_at = rng.randint(0, 3) if (not discrete and not chain and rng.random() < 0.3) else None
     bad_due_call = None        # with a delay, a malformed action is refused when it becomes DUE, d calls later
@@ -294,8 +299,9 @@ def ledger_episode(ctx, props, chain=False, discrete=False, prebuilt=None):
                 # the caller keeps ONE array for its actions and overwrites it in place for every decision (a
                 # pre-allocated action buffer): what was submitted is the content at submission time
                 if buf is None:
-                    buf = np.array(a, dtype=float)
-                buf[:] = a
+                    # (the buffer may be a numpy array, a plain list or a pandas Series: all are accepted as actions)
+                    buf = buf_kind(np.array(a, dtype=float))
+                buf[:] = list(np.array(a, dtype=float)) if isinstance(buf, list) else np.array(a, dtype=float)
                 if not submitting_bad:
                     acts[-1] = np.array(a, dtype=float)
                 a = buf
@@ -309,7 +315,7 @@ def ledger_episode(ctx, props, chain=False, discrete=False, prebuilt=None):
                 try:
                     fork = copy.deepcopy(env) if rng.random() < 0.6 else pickle.loads(pickle.dumps(env))
                     for _j in range(rng.randint(1, 3)):
-                        fa = rng.randrange(len(cfg["allocs"])) if discrete else a * rng.choice([-1.0, 0.5, 0.0])
+                        fa = rng.randrange(len(cfg["allocs"])) if discrete else np.array(a, dtype=float) * rng.choice([-1.0, 0.5, 0.0])
                         if fork.step(fa)[2]:
                             break
                     ctx.cat("forked-mid-episode")
